@@ -1,2 +1,52 @@
-(* C04 -- property theorems; proofs live in Lemmas/. *)
-From BpafLemmas Require Import Tac.
+(* C04 -- Running a parser is total, terminating and pure.
+   Property theorems only; proofs live in Lemmas/LoopLaws.v (and Lemmas/Reach.v).
+   PARTIAL.  What Rocq decides here is the termination of the repetition loops and the ledger
+   bound it rests on.  Not theorems: (a) termination of the adjacent-group retry loop (fuelled in
+   the model; fuel exhaustion is a distinct outcome the differential run would show as FUEL),
+   (b) absence of panics (the model has explicit panic outcomes at every slicing / subtraction /
+   unreachable!() site and the differential run compares them; one class is a known finding),
+   (c) purity -- Gallina functions are pure by construction; the implementation is re-run on the
+   same OptionParser and after other operations (driver modes `twice`, `history`). *)
+From Coq Require Import List Arith.
+From BpafLemmas Require Import Tac EvalEq Reach LoopLaws.
+Import ListNotations.
+
+(* `remaining <= number of items` (and the item-state vector has the length of the item list)
+   holds initially and is kept by the evaluation of EVERY parser from every state; the item list
+   itself is never changed *)
+Theorem C04_ledger_bounded_initially :
+  forall short_flags short_args name argv, bounded (fst (construct short_flags short_args name argv)).
+Proof. exact construct_bounded. Qed.
+Print Assumptions C04_ledger_bounded_initially.
+
+Theorem C04_ledger_stays_bounded :
+  forall env p s, bounded s -> bounded (snd (eval env p s)) /\ items (snd (eval env p s)) = items s.
+Proof. exact eval_keeps. Qed.
+Print Assumptions C04_ledger_stays_bounded.
+
+(* many / collect, some, count, last: with the fuel the model gives them (number of items + 2)
+   the loop itself never runs out -- if the repetition reports RFuel, its inner parser did.
+   For every inner evaluator that keeps the ledger bounded (every `eval env q` does). *)
+Theorem C04_many_terminates_partial :
+  forall ev catch s, keeps ev -> bounded s ->
+  fst (many_body ev catch s) = RFuel -> exists s', fst (ev s') = RFuel.
+Proof. exact many_body_fuel. Qed.
+Print Assumptions C04_many_terminates_partial.
+
+Theorem C04_some_terminates_partial :
+  forall ev msg catch s, keeps ev -> bounded s ->
+  fst (some_body ev msg catch s) = RFuel -> exists s', fst (ev s') = RFuel.
+Proof. exact some_body_fuel. Qed.
+Print Assumptions C04_some_terminates_partial.
+
+Theorem C04_count_terminates_partial :
+  forall ev s, keeps ev -> bounded s ->
+  fst (count_body ev s) = RFuel -> exists s', fst (ev s') = RFuel.
+Proof. exact count_body_fuel. Qed.
+Print Assumptions C04_count_terminates_partial.
+
+Theorem C04_last_terminates_partial :
+  forall ev s, keeps ev -> bounded s ->
+  fst (last_body ev s) = RFuel -> exists s', fst (ev s') = RFuel.
+Proof. exact last_body_fuel. Qed.
+Print Assumptions C04_last_terminates_partial.
